@@ -5,7 +5,23 @@ import "time"
 // ZZVerifRefreshStep runs one step of the periodic filter-refresh worker, as
 // updatesLoop does when its timer fires.  Overlaid at build time by the C05
 // check (never part of the repository): the worker's real timer fires after
-// 5 s and then hourly, too rarely for a stress run.
+// 5 s and then hourly, too rarely for a stress run.  Time passing is part of
+// the environment: every list is first made two hours older, so that the
+// worker finds lists that are due and really downloads them (otherwise a
+// step within an hour of the last one would select nothing).
 func (d *DNSFilter) ZZVerifRefreshStep() {
+	func() {
+		d.conf.filtersMu.Lock()
+		defer d.conf.filtersMu.Unlock()
+
+		for i := range d.conf.Filters {
+			d.conf.Filters[i].LastUpdated = d.conf.Filters[i].LastUpdated.Add(-2 * time.Hour)
+		}
+
+		for i := range d.conf.WhitelistFilters {
+			d.conf.WhitelistFilters[i].LastUpdated = d.conf.WhitelistFilters[i].LastUpdated.Add(-2 * time.Hour)
+		}
+	}()
+
 	d.periodicallyRefreshFilters(time.Second)
 }
